@@ -509,6 +509,51 @@ def run(world, rep, tier, only=None):
         rep.ob("C11.o", site(ufs, "every quota type disabled whatever -Q or other arms said#%d" % i), not extra,
                "`%s` is not guarded by Q_flag: %s" % (n.text()[:40], extra))
 
+    # ------------------------------------------------------------------ C11.p "-O none" clears nothing that could not be cleared by name
+    # e2p_edit_feature2() refuses `^feature` for a feature outside clear_ok_array - tune2fs cannot convert the file
+    # system to live without extents, 64bit, ....  The words "none"/"clear" zero all three feature words: that too is
+    # preceded by a look at clear_ok_array on every path.
+    ef2 = prog.fn("e2p_edit_feature2", "lib/e2p/feature.c")
+    zero = [n for n in ef2.events("S") if T.const(n.ev.get("rhs")) == 0 and n.ev.get("o") == "=" and "compat_array" in T.vars_in(n.ev["lhs"])]
+    looks = [n for n in ef2.events("S") if "clear_ok_array" in T.vars_in(n.ev.get("rhs") or {}) and
+             T.path(n.ev["lhs"]) != "clear_ok_array"] + \
+        [ef2.block_end(b) for b in ef2.blocks if ef2.literal(b) and "clear_ok_array" in T.vars_in(ef2.literal(b)[0])]
+    # only the looks that belong to the none/clear branch: what is reachable from the matching side of the comparison
+    # with those words without going round the token loop
+    words = []
+    for b_ in ef2.blocks:
+        lit = ef2.literal(b_)
+        if lit and any(cc.get("fn") in ("strcasecmp", "strcmp") and
+                       any(isinstance(T.strip(x), dict) and T.strip(x).get("k") == "s" and T.strip(x).get("v") in ("none", "clear")
+                           for x in cc.get("a", [])) for cc in T.calls(lit[0])):
+            words.append(ef2.block_end(b_))
+    region = set()
+    for w_ in words:
+        hb_ = loop_head(ef2, w_)
+        stop_ = [ef2.node(hb_, 0)] if hb_ is not None else []
+        region |= set(ef2.reach([m for (m, si) in ef2.succ(w_) if m not in words], avoid=stop_ + words))
+    # the side on which neither word matched also lies in that set: keep what can still reach a zeroing store
+    region = {n for n in region if any(z in ef2.reach([n], avoid=[ef2.node(loop_head(ef2, words[0]), 0)] if words and loop_head(ef2, words[0]) is not None else []) for z in zero)} if words else set()
+    looks = [n for n in looks if n in region]
+    rep.floor("C11.p stores that zero the feature words in e2p_edit_feature2", len(zero), 3)
+    uses_table = lambda y: isinstance(y, dict) and "clear_ok_array" in T.vars_in(y)
+    for i, z in enumerate(zero):
+        # either a look dominates the store, or the store lies behind the test of a verdict (rc) that the branch sets
+        # under a condition made from clear_ok_array (the look sits in a loop over the three words, which a
+        # path-insensitive reading may skip)
+        verdict = False
+        for t, a_ in control_lits(ef2, z):
+            v_ = T.path(a_)
+            if t is None or v_ is None:
+                continue
+            for st in ef2.events("S"):
+                if st in region and T.path(st.ev["lhs"]) == v_ and T.const(st.ev.get("rhs")) not in (None, 0) and \
+                        any(t2 is not None and (uses_table(a2) or depends_on(ef2, a2, uses_table)) for t2, a2 in control_lits(ef2, st)):
+                    verdict = True
+        rep.ob("C11.p", site(ef2, "feature word zeroed only after clear_ok_array was consulted#%d" % i),
+               bool(looks) and (ef2.dominated_by(z, looks) or verdict),
+               "`%s` lies behind a use of clear_ok_array inside the none/clear branch (dominating look, or the test of a verdict set from one)" % z.text()[:30])
+
 
 def _hurd_lit(a):
     return "EXT2_OS_HURD" in T.macros(a)
